@@ -99,6 +99,12 @@ impl TrackerClient {
 
     fn create_url(metainfo: &Metainfo) -> String {
         let info_hash: String = form_urlencoded::byte_serialize(metainfo.info_hash()).collect();
-        metainfo.tracker_url().clone() + "?info_hash=" + info_hash.as_str()
+        // Announce URL can already contain query
+        let separator = match metainfo.tracker_url().find('?') {
+            Some(_) if metainfo.tracker_url().ends_with(&['?', '&'][..]) => "",
+            Some(_) => "&",
+            None => "?",
+        };
+        metainfo.tracker_url().clone() + separator + "info_hash=" + info_hash.as_str()
     }
 }
